@@ -399,3 +399,13 @@ __CPROVER_ensures (((unsigned long) V_ABSIZ (a) > d / 64 && __CPROVER_return_val
         loops={0: dict(scalars=['i', 'g_hd'], inv='(0 <= i && i <= dlimbs && dlimbs == (mp_size_t) (d / 64) && dlimbs < asize && asize == V_ABSIZ (a) && ap == V_PTR (a) && ((0 <= gj && gj < i) ==> ap[gj] == 0))', dec='(dlimbs - i)')})},
     harness='void h_mpz_divisible_2exp_p (void) {\n' + mpz_obj('A') + '  mp_bitcnt_t d = nondet_ulong (); gj = nondet_long ();\n  __gmpz_divisible_2exp_p (&A, d);\n}', timeout=600,
     selftest=[('__gmpz_divisible_2exp_p', r'for \(i = 0; i < dlimbs; i\+\+\)', 'for (i = 1; i < dlimbs; i++)'), ('__gmpz_divisible_2exp_p', r'if \(asize <= dlimbs\)', 'if (asize < dlimbs)')]))
+
+# ------------------------------------------------------------------ the _2exp division forms: bounded native stand-in (labelled bounded, never counted as proof)
+UNITS.append(dict(
+    name='mpz_div_2exp_enum', kind='native', props=['C02', 'C05'], source='mpz/tdiv_q_2exp.c', more_sources=['mpz/tdiv_r_2exp.c', 'mpz/cfdiv_q_2exp.c', 'mpz/cfdiv_r_2exp.c'],
+    driver='replay/smallops_enum.c', args=['div2exp'],
+    bounded='BOUNDED (not proof): complete enumeration of mpz_{t,f,c}div_{q,r}_2exp over operands of 0..3 limbs over the limb alphabet {0, 1, 5, 2^63, 2^64-5, 2^64-1}, both signs (431 values) x 19 shift counts around the limb '
+            'boundaries 0..260 x (w == u, w != u with a one-limb or a generous destination): 98268 calls',
+    desc='[C02][C05] u == q * 2^cnt + r with |r| < 2^cnt and the remainder sign of the rounding mode (truncation: sign of u; floor: r >= 0; ceiling: r <= 0), which defines q and r uniquely; result normalised; u unchanged unless it is the destination',
+    assumptions=['bounded stand-in: the _2exp forms have no proof unit (mpn_rshift at a symbolic limb offset, the pattern that left mpz_mul_2exp undecided); the check uses mpz_mul_2exp, mpz_sub, mpz_setbit, mpz_cmpabs, mpz_divisible_2exp_p of the same library to evaluate the defining equation'],
+    timeout=300, selftest=[]))
